@@ -52,6 +52,129 @@ macro_rules
     let ls := ls.getElems
     `(tactic| repeat (any_goals (first | (first $[| with_reducible apply $ls]*) | pres_step | pres_leaf)))
 
+/-! ### specifications with separate success / failure postconditions -/
+
+/-- `Spec P x Q E`: from a world satisfying `P`, `x` either succeeds with `a` in a world satisfying
+`Q a`, or fails (with any error) in a world satisfying `E`. -/
+def Spec {α : Type} (P : World → Prop) (x : M α) (Q : α → World → Prop) (E : World → Prop) : Prop :=
+  ∀ w, P w → match x w with
+    | (.ok a, w') => Q a w'
+    | (.error _, w') => E w'
+
+theorem Spec.pure {α : Type} {P : World → Prop} {Q : α → World → Prop} {E : World → Prop} (a : α)
+    (h : ∀ w, P w → Q a w) : Spec P (pure a : M α) Q E := fun w hw => h w hw
+
+theorem Spec.throw {α : Type} {P : World → Prop} {Q : α → World → Prop} {E : World → Prop} (e : Err)
+    (h : ∀ w, P w → E w) : Spec P (throw e : M α) Q E := fun w hw => h w hw
+
+theorem Spec.bind {α β : Type} {P : World → Prop} {x : M α} {f : α → M β} {R : α → World → Prop}
+    {E₁ E : World → Prop} {Q : β → World → Prop}
+    (hx : Spec P x R E₁) (he : ∀ w, E₁ w → E w) (hf : ∀ a, Spec (R a) (f a) Q E) : Spec P (x >>= f) Q E := by
+  intro w hw
+  have h := hx w hw
+  simp only [bind_run]
+  cases hr : x w with
+  | mk r w' =>
+    rw [hr] at h
+    cases r with
+    | ok a => exact hf a w' h
+    | error e => exact he _ h
+
+theorem Spec.weaken {α : Type} {P P' : World → Prop} {x : M α} {Q Q' : α → World → Prop} {E E' : World → Prop}
+    (h : Spec P x Q E) (hp : ∀ w, P' w → P w) (hq : ∀ a w, Q a w → Q' a w) (he : ∀ w, E w → E' w) :
+    Spec P' x Q' E' := by
+  intro w hw
+  have := h w (hp w hw)
+  cases hr : x w with
+  | mk r w' =>
+    rw [hr] at this
+    cases r with
+    | ok a => exact hq _ _ this
+    | error e => exact he _ this
+
+theorem Spec.finallyDo {α : Type} {P : World → Prop} {x : M α} {fin : M Unit} {R Q : α → World → Prop}
+    {E₁ E : World → Prop}
+    (hx : Spec P x R E₁) (hq : ∀ a, Spec (R a) fin (fun _ => Q a) (Q a)) (he : Spec E₁ fin (fun _ => E) E) :
+    Spec P (finallyDo x fin) Q E := by
+  intro w hw
+  have h := hx w hw
+  simp only [finallyDo_run]
+  cases hr : x w with
+  | mk r w' =>
+    rw [hr] at h
+    cases r with
+    | ok a =>
+      have := hq a w' h
+      cases hf : fin w' with
+      | mk r2 w2 => rw [hf] at this; cases r2 <;> exact this
+    | error e =>
+      have := he w' h
+      cases hf : fin w' with
+      | mk r2 w2 => rw [hf] at this; cases r2 <;> exact this
+
+theorem Spec.tryM {α : Type} {P : World → Prop} {x : M α} {R : α → World → Prop} {E₁ : World → Prop}
+    (hx : Spec P x R E₁) :
+    Spec P (tryM x) (fun r w => match r with | .ok a => R a w | .error _ => E₁ w) (fun _ => False) := by
+  intro w hw
+  have h := hx w hw
+  simp only [tryM_run]
+  cases hr : x w with
+  | mk r w' =>
+    rw [hr] at h
+    cases r <;> exact h
+
+theorem Preserves.toSpec {α : Type} {I : World → Prop} {x : M α} (h : Preserves I x) :
+    Spec I x (fun _ => I) I := by
+  intro w hw
+  have := h w hw
+  cases hr : x w with
+  | mk r w' => rw [hr] at this; cases r <;> exact this
+
+theorem Spec.toPreserves {α : Type} {I : World → Prop} {x : M α} (h : Spec I x (fun _ => I) I) : Preserves I x := by
+  intro w hw
+  have := h w hw
+  cases hr : x w with
+  | mk r w' => rw [hr] at this; cases r <;> exact this
+
+theorem Spec.and {α : Type} {P P' : World → Prop} {x : M α} {Q Q' : α → World → Prop} {E E' : World → Prop}
+    (h : Spec P x Q E) (h' : Spec P' x Q' E') :
+    Spec (fun w => P w ∧ P' w) x (fun a w => Q a w ∧ Q' a w) (fun w => E w ∧ E' w) := by
+  intro w hw
+  have h1 := h w hw.1
+  have h2 := h' w hw.2
+  cases hr : x w with
+  | mk r w' => rw [hr] at h1 h2; cases r <;> exact ⟨h1, h2⟩
+
+/-- reading the outcome of a `Spec` at a concrete run. -/
+theorem Spec.run_ok {α : Type} {P : World → Prop} {x : M α} {Q : α → World → Prop} {E : World → Prop}
+    (h : Spec P x Q E) {w w' : World} {a : α} (hw : P w) (hr : x w = (.ok a, w')) : Q a w' := by
+  have := h w hw; rw [hr] at this; exact this
+theorem Spec.run_err {α : Type} {P : World → Prop} {x : M α} {Q : α → World → Prop} {E : World → Prop}
+    (h : Spec P x Q E) {w w' : World} {e : Err} (hw : P w) (hr : x w = (.error e, w')) : E w' := by
+  have := h w hw; rw [hr] at this; exact this
+
+/-- one structural step of a `Spec` proof. -/
+macro "spec_step" : tactic => `(tactic| first
+  | with_reducible exact Spec.pure _ (fun _ h => h)
+  | with_reducible exact Spec.throw _ (fun _ h => h)
+  | with_reducible exact Preserves.pure _ | with_reducible exact Preserves.throw _ | with_reducible exact Preserves.get
+  | with_reducible exact keyObj_preserves _ | with_reducible exact getCache_preserves _
+  | with_reducible assumption
+  | with_reducible apply Spec.finallyDo | with_reducible apply Spec.tryM | with_reducible apply Spec.bind
+  | with_reducible apply Preserves.finallyDo | with_reducible apply Preserves.tryM | with_reducible apply Preserves.bind
+  | with_reducible apply Preserves.toSpec
+  | contradiction
+  | (with_reducible intro _) | split | dsimp only)
+
+/-- `Spec` proofs: unfold the function, then `spec_auto [lemmas about the functions it calls]`
+(both `Spec` and `Preserves` lemmas). -/
+syntax "spec_auto" ("[" term,* "]")? : tactic
+macro_rules
+  | `(tactic| spec_auto) => `(tactic| repeat (any_goals (first | spec_step | pres_leaf)))
+  | `(tactic| spec_auto [$ls,*]) => do
+    let ls := ls.getElems
+    `(tactic| repeat (any_goals (first | (first $[| with_reducible apply $ls]*) | spec_step | pres_leaf)))
+
 /-! ### list helpers -/
 
 theorem getElem?_append_single {α : Type} (l : List α) (x : α) (i : Nat) :
